@@ -191,7 +191,29 @@ var otherBad = []string{"break", "continue", "if (y) break", "if (y) continue; e
 	"function inl(x) { for (;;) { if (x) break; else continue } break }", "return 1", "function nx(x) { next }", "next", "nextfile", "function nf2() { nextfile }", "exit; break", "{ break }", "do break; while (0); continue",
 	"for (k in arr) break; continue", "getline; break", "function deepb(x) { if (x) { if (x > 1) { { break } } } }", "while (0) { function nested() { } }", "y = undefinedf(1)", "scalf(1, 2, 3)", "arrf(1)", "y = scalf", "scalf = 1", "NR[1] = 1", "y = (1, 2) in NR", "y = ENVIRON + 1", "ARGV = 1", "function scalf(q) { }", "function dup(a, a) { }", "function NR() { }", "function nrp(NR) { }", "y = arrf(scalf)", "scalf[1] = 2", "y = (1, 2) in scalf"}
 
+// constant operands in positions a compiler may want to pre-compute: regex operands given as string
+// constants (valid and invalid), constant field indexes and subscripts, constant formats.  Whatever the
+// compiler folds, ParseProgram must return a program or an error; the statements need not be reachable.
+var constRegexes = []string{`"("`, `"["`, `"*"`, `"a{2,1}"`, `"(()"`, `"[z-a]"`, `"\\"`, `"a**"`, `"x{1001}"`, `"\\1"`, `"(?P<n"`, `"[[:foo:]]"`, `"a|b"`, `"^x+$"`, `""`, `"\377"`, `"\303"`, `"+"`, `"?"`, `")"`}
+var constRegexUses = []string{"y = $0 ~ R", "y = $0 !~ R", "y = $1 ~ R", "y = x ~ R", "y = \"abc\" ~ R", "if ($0 ~ R) n++", "if (0) print $0 ~ R", "$0 ~ R { n++ }", "y = match($0, R)", "y = match(\"s\", R)", "n = split($0, arr, R)", "sub(R, \"x\")", "gsub(R, \"x\", y)",
+	"FS = R", "RS = R", "y = (x ~ R) ? 1 : 2", "while ($0 ~ R) break", "y = R ~ R", "y = !($0 ~ R)", "print $0 ~ R", "y = $(R)", "y = arr[R]", "printf R", "y = sprintf(R, 1)", "y = index(R, R)", "y = substr(R, 1e30)", "y = $1e30", "y = $-1", "$(-1e30) = 1", "y = arr[1e999]", "y = -R", "y = R + 0", "y = 1 / 0", "y = 1 % 0", "y = 2 ^ 1e9", "y = \"a\" < 1"}
+
 func genSemantic(t *rapid.T) string {
+	if rapid.IntRange(0, 2).Draw(t, "constfam") == 0 {
+		var sb strings.Builder
+		for i := rapid.IntRange(1, 3).Draw(t, "nconst"); i > 0; i-- {
+			st := strings.ReplaceAll(rapid.SampledFrom(constRegexUses).Draw(t, "cru"), "R", rapid.SampledFrom(constRegexes).Draw(t, "cr"))
+			switch {
+			case strings.Contains(st, "{ n++ }"):
+				sb.WriteString(st + "\n")
+			case rapid.Bool().Draw(t, "infunc"):
+				sb.WriteString("function cf" + fmt.Sprint(i) + "(x, y, arr, n) { " + st + " }\n")
+			default:
+				sb.WriteString(rapid.SampledFrom([]string{"BEGIN", "END", "", "NR == 1"}).Draw(t, "cplace") + " { " + st + " }\n")
+			}
+		}
+		return sb.String()
+	}
 	name := rapid.SampledFrom([]string{"x", "x", "val", "NR", "FS", "p", "ENVIRON", "scalf"}).Draw(t, "name")
 	var stmts []string
 	n := rapid.IntRange(1, 4).Draw(t, "nuses")
@@ -234,13 +256,13 @@ func genSemantic(t *rapid.T) string {
 
 func genSrc(t *rapid.T) (string, string) {
 	switch k := rapid.IntRange(0, 109).Draw(t, "kind"); {
-	case k >= 100:
+	case k >= 97:
 		return genSemantic(t), "semantic"
 	case k < 40:
 		return genTokenSoup(t), "soup"
 	case k < 85:
 		return genMutated(t), "mutated"
-	case k < 98:
+	case k < 95:
 		return genRaw(t), "raw"
 	default:
 		return genBig(t), "big"
